@@ -319,8 +319,13 @@ twin("c10-twin-umn-generated-local", "C10", (UMN, "        if super().prepare():
 fault("c11-d5-unfixed", "C11", "R11a", (DIR, "            try:\n                with self.vfs.open(self.cachename, \"rb\") as fp:\n                    self.fileentries = pickle.load(fp)\n            except Exception:\n                # Truncated or corrupt cache file: regenerate the listing.\n                return False\n", "            with self.vfs.open(self.cachename, \"rb\") as fp:\n                self.fileentries = pickle.load(fp)\n"))
 fault("c11-narrow-handler", "C11", "R11a", (DIR, "            except Exception:\n                # Truncated or corrupt cache file: regenerate the listing.\n                return False\n", "            except EOFError:\n                return False\n"))
 fault("c11-handler-still-hit", "C11", "R11a", (DIR, "            except Exception:\n                # Truncated or corrupt cache file: regenerate the listing.\n                return False\n", "            except Exception:\n                self.fileentries = []\n"))
-fault("c11-zip-narrow", "C11", "R11a", (ZIP, "            self.dircache = shelve.open(cache_fspath, \"r\")\n        except Exception:", "            self.dircache = shelve.open(cache_fspath, \"r\")\n        except KeyError:"))
-fault("c11-zip-no-rebuild", "C11", "R11a", (ZIP, "            self.dircache = shelve.open(cache_fspath, \"r\")\n        except Exception:\n            self.populate_cache()\n            self.save_cache()", "            self.dircache = shelve.open(cache_fspath, \"r\")\n        except Exception:\n            pass"))
+fault("c11-zip-narrow", "C11", "R11a", (ZIP, "                self.dircache = dict(db)\n        except Exception:", "                self.dircache = dict(db)\n        except KeyError:"))
+fault("c11-zip-no-rebuild", "C11", "R11a", (ZIP, "                self.dircache = dict(db)\n        except Exception:\n            self.populate_cache()\n            self.save_cache()", "                self.dircache = dict(db)\n        except Exception:\n            pass"))
+ZIP_LAZY = ("            with shelve.open(cache_fspath, \"r\") as db:\n                self.dircache = dict(db)\n", "            self.dircache = shelve.open(cache_fspath, \"r\")\n")
+fault("c11-zip-lazy-store-kept", "C11", "R11b", (ZIP,) + ZIP_LAZY)
+fault("c11-zip-store-read-outside", "C11", "R11b", (ZIP, "            with shelve.open(cache_fspath, \"r\") as db:\n                self.dircache = dict(db)\n        except Exception:\n            self.populate_cache()\n            self.save_cache()\n",
+      "            db = shelve.open(cache_fspath, \"r\")\n        except Exception:\n            self.populate_cache()\n            self.save_cache()\n            return\n        self.dircache = dict(db)\n"))
+twin("c11-twin-zip-items", "C11", (ZIP, "                self.dircache = dict(db)\n", "                self.dircache = dict(db.items())\n"))
 twin("c11-twin-log", "C11", (DIR, "            except Exception:\n                # Truncated or corrupt cache file: regenerate the listing.\n                return False\n", "            except Exception as e:\n                self.cacheerror = str(e)\n                return False\n"))
 twin("c11-twin-tuple", "C11", (DIR, "            except Exception:\n                # Truncated", "            except (Exception, OSError):\n                # Truncated"))
 
